@@ -205,6 +205,7 @@ func TestC09(t *testing.T) {
 					r.NT(c.YA, c.YB)
 				}
 				r.Class(c.Unit + "/" + strings.SplitN(c.What, " ", 2)[0])
+				r.Sample(map[string]any{"variation": c.What, "unit": c.Unit, "observed_lines_in_a": []int{c.StartA, c.EndA}, "a": c.YA, "b": c.YB})
 				if k != "" {
 					r.Fail(rt, k, m, "C09/pair", c)
 					return false
